@@ -284,6 +284,24 @@ impl<'a> Tr<'a> {
                     Err(format!("index {}", text))
                 }
             }
+            Expr::MethodCall(m) if m.method == "contains" && m.args.len() == 1 && Self::as_range(&m.receiver).is_some() => {
+                // (a..=b).contains(&x)  /  (a..b).contains(&x)
+                let r = Self::as_range(&m.receiver).unwrap();
+                let (x, _) = self.expr(&m.args[0], binds)?;
+                let mut parts = Vec::new();
+                if let Some(lo) = &r.start {
+                    let (l, _) = self.expr(lo, binds)?;
+                    parts.push(format!("({} <=? {})", l, x));
+                }
+                if let Some(hi) = &r.end {
+                    let (h, _) = self.expr(hi, binds)?;
+                    match r.limits {
+                        syn::RangeLimits::Closed(_) => parts.push(format!("({} <=? {})", x, h)),
+                        syn::RangeLimits::HalfOpen(_) => parts.push(format!("({} <? {})", x, h)),
+                    }
+                }
+                Ok((if parts.is_empty() { "true".to_string() } else { format!("({})", parts.join(" && ")) }, Kind::Other))
+            }
             Expr::MethodCall(m) if (m.method == "unwrap" || m.method == "expect") && self.is_fallible(&m.receiver) => {
                 // Result::unwrap / expect on a fallible call: the error becomes a panic
                 let inner = self.res_expr(&m.receiver, binds)?;
@@ -353,6 +371,14 @@ impl<'a> Tr<'a> {
                 Ok((format!("({})", parts.join(", ")), Kind::Other))
             }
             _ => Err(format!("expression form not in the subset: {}", text)),
+        }
+    }
+
+    fn as_range(e: &Expr) -> Option<&syn::ExprRange> {
+        match e {
+            Expr::Paren(p) => Self::as_range(&p.expr),
+            Expr::Range(r) => Some(r),
+            _ => None,
         }
     }
 
